@@ -8,7 +8,7 @@ from .. import shimlab as S
 
 ID = "C05"
 LEVEL = "fault_enumeration"
-RULE = ("scenario trees {one group of 3, hard-link set, two groups} x op {remove, link, link --soft, dedupe with FICLONE "
+RULE = ("scenario trees {one group of 3, hard-link set, two groups, names of 230 / 231 / 255 bytes (NAME_MAX and the room the temporary sibling needs)} x op {remove, link, link --soft, dedupe with FICLONE "
         "emulated, dedupe on a file system without reflink, move by rename, move by copy to another device (rename fails with EXDEV), "
         "move to another mount point known to fclones (copy without a rename attempt)}; the "
         "mutating-call history of the real binary is recorded twice (must be identical), then for EVERY event k the run "
@@ -33,6 +33,10 @@ SCENARIOS = {
                   {"p": "r/d/b", "k": "file", "c": ["base", 100, 1]}, {"p": "r/e/b2", "k": "hard", "to": "r/d/b"}],
     "two_groups": [{"p": "r/a1", "k": "file", "c": ["base", 70000, 1]}, {"p": "r/a2", "k": "file", "c": ["base", 70000, 1]},
                    {"p": "r/b1", "k": "file", "c": ["lit", "bbbb"]}, {"p": "r/x/b2", "k": "file", "c": ["lit", "bbbb"]}],
+    # file names at the limits of NAME_MAX: the temporary sibling '<name>.<24 characters>' fits (230), does not fit by
+    # one byte (231), and the name itself is as long as a name can be (255)
+    "long_names": [{"p": "r/d/" + "A" * 255, "k": "file", "c": ["base", 200, 1]}, {"p": "r/d/" + "B" * 255, "k": "file", "c": ["base", 200, 1]},
+                   {"p": "r/e/" + "C" * 230, "k": "file", "c": ["base", 200, 1]}, {"p": "r/e/" + "D" * 231, "k": "file", "c": ["base", 200, 1]}],
 }
 OPS = ["remove", "link", "softlink", "dedupe_emulated", "dedupe_native", "move_rename", "move_copy", "move_known_mount"]
 
